@@ -1,8 +1,9 @@
 """C07 — global peak detection reports a true maximum; refinement is bounded and helps.
 
-Model: coq/theories/C07/Global.v (x = first maximal column, y = first maximal row,
-computed independently; threshold masking; valid_idx gather / scatter of the integral
-offsets; switchable to the proposed repair of F2); theorems: C07/Props.v.
+Model: coq/theories/C07/Global.v (x = first maximal column; y = first maximal row within
+that column — the current tree, fix 4dd71e5 of F2 — or, `fixed = false`, the pinned tree's
+independent first maximal row; threshold masking in the map's dtype; valid_idx gather /
+scatter of the integral offsets); theorems: C07/Props.v, PropsBox.v.
 Tie: correspondence of Global.run (vm_compute in coqc) with find_global_peaks_rough and
 find_global_peaks on generated batches of exactly representable maps; the Coq selector
 of F2 is compared with the oracle's selector on every generated map.
@@ -35,13 +36,26 @@ RUN, RENDER = "C07.Global.run", "C07.Global.rresult"
 ATOL, RTOL = 2e-5, 3e-4
 SEL_F2 = "F2_first_max_row_and_column_miss"
 SEL_F9 = "F9_patch_negative_or_peak_nonpositive"
+SEL_F25 = "F25_refinement_patch_sticks_out_of_map"
 PATCHES = [3, 5, 7]
 F2_WITNESS = [[F(0), F(1)], [F(1), F(0)]]
 
 
 # ---------------------------------------------------------------- generation
+def thr_cmp(c):
+    """The threshold as the code compares it: rounded to the map's dtype (M.thr_in_dtype); what the model is given and
+    what the theorems and the oracle call `thr`."""
+    return M.thr_in_dtype(c["thr"], c.get("dtype", "float32"))
+
+
 def gen_case(rng, thorough):
     big = 10 if thorough else 8
+    if rng.random() < 0.1:      # non-dyadic thresholds 0.1 / 0.2 / 0.3 / 0.7; channel maxima at / next to dtype(threshold)
+        cms, thr, dt = M.gen_thr_edge(rng)
+        c = {"kind": "rough" if rng.random() < 0.5 else "refine", "cms": cms, "thr": thr, "family": "thr_edge", "dtype": dt}
+        if c["kind"] == "refine":
+            c["p"] = M.gen_patch_size(rng)
+        return c
     cms, fam = M.gen_batch(rng, big)
     t = rng.random()
     if t < 0.2:                                   # mixed valid / invalid channels: threshold between the maxima
@@ -63,7 +77,7 @@ def gen_case(rng, thorough):
 def term(c, fixed):
     # the patch by its size p (Global.global_peaks_p: odd = integer-centred window, even = half-pixel samples)
     rf = f"(Some {c['p']}%nat)" if c["kind"] == "refine" else "None"
-    return f"GPeaksP {core.cbool(fixed)} {M.cms_lit(c['cms'])} {core.cq(c['thr'])} {rf}"
+    return f"GPeaksP {core.cbool(fixed)} {M.cms_lit(c['cms'])} {core.cq(thr_cmp(c))} {rf}"
 
 
 def case_json(c):
@@ -125,14 +139,14 @@ def same_point(a, b):
 def oracle(c, out, mods):
     """Returns the list of (reason, selector) of every clause that fails (empty = holds)."""
     fails = []
-    cms, thr = c["cms"], c["thr"]
+    cms, thr = c["cms"], thr_cmp(c)          # the statement is read with the threshold as the code compares it
     B, C = len(cms), len(cms[0])
     H, W = len(cms[0][0]), len(cms[0][0][0])
     if len(out) != B or any(len(o) != C for o in out):
         return [("output shape is not (samples, channels)", None)]
     refine = c["kind"] == "refine"
     ts = M.tol_scale(c.get("dtype", "float32"))
-    rough = impl_rough(cms, thr, mods, c.get("dtype", "float32")) if refine else out
+    rough = impl_rough(cms, c["thr"], mods, c.get("dtype", "float32")) if refine else out
     for s in range(B):
         for ch in range(C):
             m = cms[s][ch]
@@ -162,12 +176,22 @@ def oracle(c, out, mods):
                     fails.append((f"{where}: refined {pt} is more than half a patch (p={p}) from cell {(x0, y0)}",
                                   SEL_F9 if M.selector_F9(m, x0, y0, r) else None))
                     continue
-                P = M.patch_values(m, x0, y0, r)        # the window of cells, radius p // 2
-                n = 2 * r + 1
-                sym = all(P[i][j] == P[n - 1 - i][n - 1 - j] for i in range(n) for j in range(n))
-                if sym and not M.selector_F9(m, x0, y0, r):                  # c07_symmetric_unmoved(_any_patch)
-                    if abs(pt[0] - x0) > 1e-4 * ts or abs(pt[1] - y0) > 1e-4 * ts:
-                        fails.append((f"{where}: patch symmetric about {(x0, y0)} but refined to {pt}", None))
+                # (f) the map is symmetric about the reported cell as far as the map goes (cells within radius
+                # p // 2): unmoved.  c07_symmetric_unmoved_partial proves it when the patch lies inside the map;
+                # when it sticks out the zero padding breaks it (finding F25, c07_symmetric_unmoved_refuted)
+                # Inside the map: point symmetry of the cells read (= of the zero-padded window).  Sticking out: a
+                # zero-padded window that is still symmetric must be unmoved (c07_zero_padded_symmetric_unmoved_any_patch);
+                # a genuine symmetric bump cut by the edge (radially symmetric as far as the map goes) that moves is F25.
+                out_of_map = M.patch_sticks_out(m, x0, y0, p)
+                moved = abs(pt[0] - x0) > 1e-4 * ts or abs(pt[1] - y0) > 1e-4 * ts
+                if moved and not M.selector_F9(m, x0, y0, r):
+                    P = M.patch_values(m, x0, y0, r)        # the zero-padded window of cells, radius p // 2
+                    n = 2 * r + 1
+                    if all(P[i][j] == P[n - 1 - i][n - 1 - j] for i in range(n) for j in range(n)):
+                        fails.append((f"{where}: window symmetric about {(x0, y0)} but refined to {pt}", None))
+                    elif out_of_map and M.radially_symmetric(m, x0, y0, r):
+                        fails.append((f"{where}: bump symmetric about {(x0, y0)} (radius {r}, cut by the edge of the map) "
+                                      f"but refined to {pt}", SEL_F25))
     # channel independence: every (sample, channel) alone gives the same answer           c07_channel_independence
     if B > 1 or C > 1:
         for s in range(B):
@@ -196,8 +220,8 @@ def compare(c, model, out, fixed):
                 return f"map ({s},{ch}): value impl {v} model {float(core.frac(mv))}", 0
             if mpt is None:
                 if c["kind"] == "refine" and v != 0:
-                    skipped += 1     # valid peak, zero patch sum: non-finite in exact arithmetic
-                    continue
+                    skipped += 1     # valid peak, zero patch sum: the model's None stands for "inf, NaN or an arbitrary
+                    continue         # huge number" (the float sum of kornia's inexact crop may be ~1e-16, not 0): unchecked
                 if not (isnan(pt[0]) and isnan(pt[1])):
                     return f"map ({s},{ch}): impl {pt}, model NaN", 0
                 continue
@@ -228,7 +252,7 @@ def gaussian_test(run, mods, n):
     measures the float implementation."""
     torch, pf = mods
     rng = run.rng
-    fails, worst = 0, 0.0
+    fails, worst, near, known = 0, 0.0, 0, 0
     for _ in range(n):
         # all sizes 2..7: centred bump unmoved, offset has the sign of the displacement
         # (c07_gaussian_moves_toward_centre_any_patch), no overshoot, half-patch bound
@@ -238,28 +262,42 @@ def gaussian_test(run, mods, n):
         H, W = rng.randint(2 * r + 4, 18), rng.randint(2 * r + 4, 18)
         sig = rng.choice([0.5, 0.75, 1.0, 1.5, 2.0, 3.0, 4.0])
         ix, iy = rng.randint(r + 1, W - r - 2), rng.randint(r + 1, H - r - 2)
+        if rng.random() < 0.3:      # 0 .. r cells from an edge: the patch sticks out of the map (finding F25)
+            if rng.random() < 0.7:
+                ix = rng.choice([rng.randint(0, r), W - 1 - rng.randint(0, r)])
+            if rng.random() < 0.5:
+                iy = rng.choice([rng.randint(0, r), H - 1 - rng.randint(0, r)])
         cx, cy = ix + rng.randint(-8, 8) / 16, iy + rng.randint(-8, 8) / 16
         yy, xx = torch.meshgrid(torch.arange(H, dtype=torch.float32), torch.arange(W, dtype=torch.float32),
                                 indexing="ij")
         m = torch.exp(-((xx - cx) ** 2 + (yy - cy) ** 2) / (2 * sig * sig)).reshape(1, 1, H, W)
         rough, _ = pf.find_global_peaks(m, threshold=0.05, refinement=None)
         ref, _ = pf.find_global_peaks(m, threshold=0.05, refinement="integral", integral_patch_size=p)
+        gx, gy = int(rough[0, 0, 0].item()), int(rough[0, 0, 1].item())
+        out_of_map = gx < r or gy < r or gx + r >= W or gy + r >= H       # selector F25 at the rough cell
+        near += out_of_map
         for a, ctr in enumerate((cx, cy)):
             g, f = rough[0, 0, a].item(), ref[0, 0, a].item()
             d, off = ctr - g, f - g
             overshoot = abs(d - off) > abs(d) + 1e-4      # all sizes (the exact formula never overshoots: off/d <= 1)
             bad = (abs(d) >= 1 / 16 and off * d <= 0) or overshoot or abs(off) > p / 2 + 1e-4
-            if abs(d) >= 1 / 16:
+            if abs(d) >= 1 / 16 and not out_of_map:
                 worst = max(worst, off / d)
-            if bad:
+            if bad and out_of_map:
+                known += 1
+            elif bad:
                 fails += 1
+            if bad:
                 run.violation("failing-input", {"case": {"kind": "gaussian", "H": H, "W": W, "sigma": sig,
                                                          "centre": [cx, cy], "p": p},
-                                                "oracle": f"axis {a}: true offset {d}, refinement moved by {off}"})
+                                                "oracle": f"axis {a}: true offset {d}, refinement moved by {off}"},
+                              selector=SEL_F25 if out_of_map else None)
     run.count("gaussian_bumps_tested", n)
+    run.count("gaussian_bumps_with_patch_out_of_map", near)
     run.notes.append(f"test (not proof): {n} float32 Gaussian bumps, sub-pixel centres k/16, sigma 0.5..4, p in 2..7: "
-                     f"{fails} failures of 'offset has the sign of the displacement, does not overshoot'; "
-                     f"largest offset/displacement ratio {worst:.4f}")
+                     f"{fails} failures of 'offset has the sign of the displacement, does not overshoot' with the patch "
+                     f"inside the map; {near} bumps had the patch sticking out of the map (F25), {known} axis failures there "
+                     f"(known finding); largest offset/displacement ratio {worst:.4f}")
 
 
 # ---------------------------------------------------------------- public entry points (layers)
@@ -319,7 +357,7 @@ def check_layers(run, fixed, thorough):
                     "input_scale:" + str(o.get("scale", "-")), "stride:" + str(o.get("stride", "-"))):
             dist[key] = dist.get(key, 0) + 1
         flat = [mm for smp in c["cms"] for mm in smp]
-        nvalid = sum(1 for mm in flat if max(v for row in mm for v in row) >= e["thr"])
+        nvalid = sum(1 for mm in flat if max(v for row in mm for v in row) >= e["thr_cmp"])
         dist["valid_channels"] = dist.get("valid_channels", 0) + nvalid
         dist["invalid_channels"] = dist.get("invalid_channels", 0) + len(flat) - nvalid
         dist["channels_with_max_in_0_to_0.2"] = dist.get("channels_with_max_in_0_to_0.2", 0) + sum(
@@ -350,6 +388,22 @@ def check_layers(run, fixed, thorough):
         run.sample(L.case_json(c))
     run.trusted.append("the stub / identity network stands for the trained model: the layers are checked on the maps "
                        "it returns (hand-made), not on what a trained network would produce")
+
+
+def sel_queries(c, fixed, rng):
+    """Cells (m, y, x, p) at which the Coq selectors that are premises of the (e), (f), (g) theorems are evaluated:
+    the rough cell of every map with the case's patch size, and a random cell with a random size."""
+    qs = []
+    for smp in c["cms"]:
+        for m in smp:
+            x0, y0 = L.rough_cell(m, fixed)
+            qs.append((m, y0, x0, c.get("p") or rng.choice([2, 3, 4, 5, 6, 7])))
+            qs.append((m, rng.randrange(len(m)), rng.randrange(len(m[0])), rng.choice([2, 3, 4, 5, 6, 7])))
+    return qs
+
+
+def sel_lit(qs):
+    return core.clist(qs, lambda q: f"({M.cmap_lit(q[0])}, ({q[1]}%nat, {q[2]}%nat, {q[3]}%nat))")
 
 
 # ---------------------------------------------------------------- check
@@ -420,9 +474,31 @@ def check(run: core.Run) -> int:
                           "p": (3, 2, 4)[(i // 9) % 3], "family": "exhaustive_3x3"})
     terms = [term(c, fixed) for c in cases]
     sel_terms = ["GSelF2 " + core.clist([m for smp in c["cms"] for m in smp], M.cmap_lit) for c in cases]
-    model = core.coq_eval_sharded(PREAMBLE, terms + sel_terms, RUN, RENDER, shard=100, jobs=12)
-    model, sels = model[:len(cases)], model[len(cases):]
+    queries = [sel_queries(c, fixed, run.rng) for c in cases]
+    f9_terms = ["GSelF9 " + sel_lit(qs) for qs in queries]
+    f25_terms = ["GSelF25 " + sel_lit(qs) for qs in queries]
+    model = core.coq_eval_sharded(PREAMBLE, terms + sel_terms + f9_terms + f25_terms, RUN, RENDER, shard=100, jobs=12)
+    n_c = len(cases)
+    model, sels, f9s, f25s = model[:n_c], model[n_c:2 * n_c], model[2 * n_c:3 * n_c], model[3 * n_c:]
     disagree, sel_disagree, skipped, dist = 0, 0, 0, {}
+    sel9_disagree = sel25_disagree = n_f9 = n_f25 = 0
+    for c, qs, a9, a25 in zip(cases, queries, f9s, f25s):
+        py9 = [M.selector_F9(m, x, y, p // 2) for (m, y, x, p) in qs]
+        py25 = [M.patch_sticks_out(m, x, y, p) for (m, y, x, p) in qs]
+        n_f9 += sum(py9)
+        n_f25 += sum(py25)
+        if a9 != py9:
+            sel9_disagree += 1
+            run.proof_broken.append(f"selector_F9_p (Coq) != oracle selector_F9 on case {json.dumps(case_json(c))[:400]}")
+        if a25 != py25:
+            sel25_disagree += 1
+            run.proof_broken.append(f"selector_F25 (Coq) != oracle patch_sticks_out on case {json.dumps(case_json(c))[:400]}")
+    run.obligation("selector_F9_p (Coq, premise of the (e) theorems) == the oracle's selector_F9 at the rough cell and a "
+                   "random cell of every generated map", sel9_disagree == 0, f"{sel9_disagree} disagreements")
+    run.obligation("selector_F25 (Coq, premise of the (f)/(g) theorems) == the oracle's patch_sticks_out at the same cells",
+                   sel25_disagree == 0, f"{sel25_disagree} disagreements")
+    dist["selector_queries"] = sum(len(q) for q in queries)
+    dist["selector_F9_true"], dist["selector_F25_true"] = n_f9, n_f25
     for c, m, sel in zip(cases, model, sels):
         for key in (c["kind"], "family:" + c.get("family", "-"), f"p={c.get('p', '-')}",
                     f"B{len(c['cms'])}C{len(c['cms'][0])}", "dtype:" + c.get("dtype", "-")):
@@ -481,6 +557,12 @@ def check(run: core.Run) -> int:
                      f"is reported with value NaN and is never masked by the threshold: [[0,nan],[2,0]] -> {o}")
     run.assumptions += ["map values finite (no NaN/inf); rectangular batches with B,C,H,W >= 1; float32 / float64 / float16 "
                         "inputs (float16 with a singleton axis makes kornia raise in the refinement: kept out, see C06)",
+                        "`thr` in the model, the theorems and the oracle is the threshold AS THE CODE COMPARES IT "
+                        "(`max_values < threshold` is evaluated in the map's dtype): the caller's Python float rounded to "
+                        "float32 / float16 / float64 (c06_maps.thr_in_dtype); float32(0.7) < 0.7, float16(0.2) < 0.2",
+                        "a model point None with a non-zero value (zero patch sum) stands for 'inf, NaN or an arbitrary huge "
+                        "number' (kornia's crop is inexact: the float sum may be ~1e-16) and is not compared (counted as "
+                        "refined_peaks_skipped_zero_patch_sum)",
                         "integral_patch_size >= 2, odd or even (size 1 is a single cell: the Gaussian clause cannot hold "
                         "for any implementation and kornia raises on the degenerate box)"]
     return run.finish()
